@@ -275,6 +275,15 @@ func c19(c *Ctx) {
 			}
 		}
 	}
+	// wanted lists that name a capability twice, and "sasl" listed explicitly although a SASL mechanism is configured as
+	// well: still requested once each
+	for _, w := range [][]string{{"a", "a"}, {"a", "t", "a"}, {"sasl"}, {"a", "sasl", "t", "sasl"}, {"t", "userhost-in-names", "t", "t"}} {
+		for _, a := range [][]string{{"a", "t", "sasl"}, {"sasl"}, {"a", "t", "d", "sasl", "userhost-in-names"}} {
+			for sk := 0; sk <= 3; sk += 1 {
+				cases = append(cases, capDialogue(w, a, sk, c.R.N(3), c.R.Pick("903", "904", "908")))
+			}
+		}
+	}
 	// the same client negotiating more than once: a multi-line LS whose lines advertise different sets
 	all := subsets([]string{"a", "t", "d", "sasl", "userhost-in-names"})
 	for _, w := range subsets([]string{"a", "c", "t", "userhost-in-names"}) {
